@@ -74,4 +74,9 @@ func init() {
 		Monitors: func() []mon.Monitor { return []mon.Monitor{mon.NewC19()} },
 		Plan:     plan([]run.PlanItem{pi("replicas", 8)}, []run.PlanItem{pi("replicas", 32)}),
 		Assume:   []string{boundsAssume, "different process-level randomisation is obtained from separate app objects in one process (Go randomises every map range independently)"}}
+	run.Props["C14"] = &run.PropSpec{ID: "C14", Level: "exploration",
+		Rule:     "one evaluation = one successful vest / claim / cancel / vest-now transaction of an observed account checked against the monitor's own linear-schedule reference (entries and balances snapshotted by the pre-message probe, compared in the post-tx probe), or one conservation equation; distinct = (op, account, entries before -> after) never seen before",
+		Monitors: func() []mon.Monitor { return []mon.Monitor{mon.NewC14()} },
+		Plan:     plan([]run.PlanItem{pi("commit-life", 10), pi("vest-edge", 4)}, []run.PlanItem{pi("commit-life", 48), pi("vest-edge", 12), pi("replicas", 4)}),
+		Assume:   []string{boundsAssume, "single-message transactions for the observed accounts (the harness only sends those)"}}
 }
